@@ -722,11 +722,8 @@ impl Cx {
 }
 const ONE: Cx = Cx { re: 1.0, im: 0.0 };
 
-/// textbook response of the state-variable filter: analog prototype at s = i * Omega,
-/// Omega = tan(pi f / fs) / tan(pi fc / fs) (bilinear transform with pre-warping), damping k
-fn spec_filter(mode: u8, fc: f64, k: f64, sr: f64, f: f64) -> Cx {
-	let pi = std::f64::consts::PI;
-	let om = (pi * f / sr).tan() / (pi * fc / sr).tan();
+/// analog prototype of the state-variable filter at s = i * om, damping k
+fn proto_filter(mode: u8, k: f64, om: f64) -> Cx {
 	let s = Cx::new(0.0, om);
 	let den = s.mul(s).add(s.scale(k)).add(ONE);
 	match mode {
@@ -736,19 +733,46 @@ fn spec_filter(mode: u8, fc: f64, k: f64, sr: f64, f: f64) -> Cx {
 		_ => s.mul(s).add(ONE).div(den),
 	}
 }
-/// Audio-EQ-Cookbook prototypes (peaking / low shelf / high shelf), A = 10^(dB/40)
-fn spec_eq(kind: u8, fc: f64, gain_db: f64, q: f64, sr: f64, f: f64) -> Cx {
-	let pi = std::f64::consts::PI;
-	let om = (pi * f / sr).tan() / (pi * fc / sr).tan();
+/// Audio-EQ-Cookbook prototypes (peaking / low shelf / high shelf) at s = i * om; ra = sqrt(A), A = 10^(dB/40)
+fn proto_eq(kind: u8, ra: f64, q: f64, om: f64) -> Cx {
 	let s = Cx::new(0.0, om);
-	let a = 10f64.powf(gain_db / 40.0);
-	let ra = a.sqrt();
+	let a = ra * ra;
 	let s2 = s.mul(s);
 	match kind {
 		0 => s2.add(s.scale(a / q)).add(ONE).div(s2.add(s.scale(1.0 / (a * q))).add(ONE)),
 		1 => s2.add(s.scale(ra / q)).add(ONE.scale(a)).scale(a).div(s2.scale(a).add(s.scale(ra / q)).add(ONE)),
 		_ => s2.scale(a).add(s.scale(ra / q)).add(ONE).scale(a).div(s2.add(s.scale(ra / q)).add(ONE.scale(a))),
 	}
+}
+/// frequency warping of the bilinear transform with pre-warping: probe f, requested frequency fc
+fn warp(fc: f64, sr: f64, f: f64) -> f64 {
+	let pi = std::f64::consts::PI;
+	(pi * f / sr).tan() / (pi * fc / sr).tan()
+}
+fn spec_filter(mode: u8, fc: f64, k: f64, sr: f64, f: f64) -> Cx {
+	proto_filter(mode, k, warp(fc, sr, f))
+}
+fn spec_eq(kind: u8, fc: f64, gain_db: f64, q: f64, sr: f64, f: f64) -> Cx {
+	proto_eq(kind, 10f64.powf(gain_db / 40.0).sqrt(), q, warp(fc, sr, f))
+}
+/// the reference formulas above against the rational evaluation of the Coq prototypes (coqc decides)
+fn emit_spec_filter(s: &mut Session, mode: u8, k: f64, om: f64) {
+	let h = proto_filter(mode, k, om);
+	if !(h.re.is_finite() && h.im.is_finite() && om.is_finite()) {
+		return;
+	}
+	let term = format!("CSpecFilter {} {} {} {} {}", mode, f64_bits_z(k), f64_bits_z(om), f64_bits_z(h.re), f64_bits_z(h.im));
+	let key = key_of(&term);
+	s.case("reference_formula_filter_Q", term, &[1], key);
+}
+fn emit_spec_eq(s: &mut Session, kind: u8, ra: f64, q: f64, om: f64) {
+	let h = proto_eq(kind, ra, q, om);
+	if !(h.re.is_finite() && h.im.is_finite() && om.is_finite()) {
+		return;
+	}
+	let term = format!("CSpecEq {} {} {} {} {} {}", kind, f64_bits_z(ra), f64_bits_z(q), f64_bits_z(om), f64_bits_z(h.re), f64_bits_z(h.im));
+	let key = key_of(&term);
+	s.case("reference_formula_eq_Q", term, &[1], key);
 }
 
 /// measured response from the impulse response: H(e^{i theta}) = sum_n h[n] e^{-i n theta};
@@ -879,8 +903,11 @@ fn sec_filter_response(s: &mut Session, cx: &Ctx, rng: &mut Rng, n_cfg: usize, n
 					s.notes.push(format!("{desc}: impulse response not decayed after {n} frames (tail {tail:e}); response not compared"));
 					continue;
 				}
-				for (f, h) in probes.iter().zip(hs.iter()) {
+				for (j, (f, h)) in probes.iter().zip(hs.iter()).enumerate() {
 					let (tr, ta) = resp_tol(fc, sr);
+					if i < 24 && j % 4 == 1 {
+						emit_spec_filter(s, mode, k, warp(fc, sr as f64, *f));
+					}
 					check_response(s, &mut st, "impulse-response DFT", &desc, *f, *h, spec_filter(mode, fc, k, sr as f64, *f), tr, ta);
 				}
 			}
@@ -980,8 +1007,11 @@ fn sec_eq_response(s: &mut Session, cx: &Ctx, rng: &mut Rng, n_cfg: usize) {
 					s.notes.push(format!("{desc}: impulse response not decayed after {n} frames (tail {tail:e}); response not compared"));
 					continue;
 				}
-				for (f, h) in probes.iter().zip(hs.iter()) {
+				for (j, (f, h)) in probes.iter().zip(hs.iter()).enumerate() {
 					let (tr, ta) = resp_tol(fc, sr);
+					if i < 24 && j % 4 == 1 {
+						emit_spec_eq(s, kind, 10f64.powf(gain as f64 / 40.0).sqrt(), q, warp(fc, sr as f64, *f));
+					}
 					check_response(s, &mut st, "impulse-response DFT", &desc, *f, *h, spec_eq(kind, fc, gain as f64, q, sr as f64, *f), tr, ta);
 				}
 			}
